@@ -76,6 +76,11 @@ func Wrap(block cipher.Block, cek []byte) ([]byte, error) {
 // Unwrap decrypts the provided cipher text with the given AES cipher (and corresponding key), using the AES Key Wrap algorithm (RFC-3394).
 // The decrypted cipher text is verified using the default IV and will return an error if validation fails.
 func Unwrap(block cipher.Block, cipherText []byte) ([]byte, error) {
+	// The wrapped key contains the 64-bit integrity check value and at least one 64-bit block of key data
+	if len(cipherText) < 16 || (len(cipherText)%8) != 0 {
+		return nil, errors.New("invalid length for the wrapped key")
+	}
+
 	// Initialize variables
 	a := make([]byte, 8)
 	n := (len(cipherText) / 8) - 1
